@@ -20,3 +20,4 @@ CONSTANTS
  UidKey <- JoinDash
  KeyForms = {"id"}
  Dev_KeyUnchecked = FALSE
+ Dev_IdUnchecked = FALSE
